@@ -833,4 +833,146 @@ theorem table_numeric_agree (cap : List Char) (h : numericBody cap = true) :
   ⟨r.1, r.2.2.1⟩
 
 end Table
+
+/-! ## escaping every punctuation character round-trips through the inline loop -/
+
+/-- the text scanner's "not a stop character" -/
+def nonStop (c : Char) : Bool := !textStop.contains c
+def notPunct (c : Char) : Bool := !isAsciiPunct c
+
+theorem nonStop_of_notPunct (c : Char) (h : isAsciiPunct c = false) (hn : c ≠ '\n') :
+    nonStop c = true := by
+  unfold nonStop
+  cases hc : textStop.contains c
+  · rfl
+  · rcases stopset_subset_punct c (by simpa using hc) with h1 | h1
+    · exact absurd h1 hn
+    · rw [h] at h1; cases h1
+
+theorem nonStop_backslash : nonStop '\\' = false := by decide
+
+/-- in `escapeAllPunct s` the text scanner reads exactly the punctuation-free prefix of `s` -/
+theorem splitRun_escaped (s : List Char) (hn : '\n' ∉ s) :
+    splitRun nonStop (escapeAllPunct s) =
+      ((splitRun notPunct s).1, escapeAllPunct (splitRun notPunct s).2) := by
+  induction s with
+  | nil => simp [escapeAllPunct, splitRun]
+  | cons c t ih =>
+    have ih := ih (fun h => hn (by simp [h]))
+    by_cases hp : isAsciiPunct c = true
+    · simp [escapeAllPunct, hp, splitRun, nonStop_backslash, notPunct]
+    · have hp' : isAsciiPunct c = false := by simpa using hp
+      have hc : c ≠ '\n' := fun he => hn (by simp [he])
+      simp [escapeAllPunct, hp', splitRun, nonStop_of_notPunct c hp' hc, notPunct, ih]
+
+theorem escapeAllPunct_append_notPunct (a s : List Char) (ha : ∀ c ∈ a, notPunct c = true) :
+    escapeAllPunct (a ++ s) = a ++ escapeAllPunct s := by
+  induction a with
+  | nil => rfl
+  | cons c t ih =>
+    have hc : isAsciiPunct c = false := by simpa [notPunct] using ha c (by simp)
+    simp [escapeAllPunct, hc, ih (fun x hx => ha x (by simp [hx]))]
+
+theorem textRule_eq (s : List Char) :
+    textRule s = if (splitRun nonStop s).1.length == 0 then .ok none
+      else .ok (some ((splitRun nonStop s).1.length, [.text (splitRun nonStop s).1])) := rfl
+
+/-- **C12 (`escape_roundtrip`).** For every string `s` without a newline and every rule chain that
+    starts with the text scanner and the escape rule (ANY further rules `rest`): the inline loop on
+    `escapeAllPunct s` never panics, never consults `rest` nor the one-character fallback — every stop
+    character of the text scanner that occurs is a `\`, which the escape rule consumes together with
+    the escaped character — and the pieces display exactly `s`. (`s.length` iterations suffice.) -/
+theorem escape_roundtrip (rest : List Rule) (s : List Char) (hn : '\n' ∉ s) :
+    ∀ fuel, s.length ≤ fuel →
+      ∃ ps, inlineLoop ([textRule, escapeRuleR] ++ rest) fuel (escapeAllPunct s) = .ok ps ∧
+        display ps = s ∧ ∀ p ∈ ps, (∃ t, p = .text t) ∨ (∃ c, p = .special [c] ['\\', c]) := by
+  have key : ∀ n (s : List Char), s.length ≤ n → '\n' ∉ s → ∀ fuel, s.length ≤ fuel →
+      ∃ ps, inlineLoop ([textRule, escapeRuleR] ++ rest) fuel (escapeAllPunct s) = .ok ps ∧
+        display ps = s ∧ ∀ p ∈ ps, (∃ t, p = .text t) ∨ (∃ c, p = .special [c] ['\\', c]) := by
+    intro n
+    induction n with
+    | zero =>
+      intro s hs _ fuel _
+      match s, hs with
+      | [], _ => exact ⟨[], by cases fuel <;> simp [escapeAllPunct, inlineLoop], rfl, by simp⟩
+    | succ n ih =>
+      intro s hs hn fuel hf
+      match s, hs, hn, hf with
+      | [], _, _, _ => exact ⟨[], by cases fuel <;> simp [escapeAllPunct, inlineLoop], rfl, by simp⟩
+      | c :: t, hs, hn, hf =>
+        match fuel, hf with
+        | f + 1, hf =>
+          have hnt : '\n' ∉ t := fun h => hn (by simp [h])
+          by_cases hp : isAsciiPunct c = true
+          · -- `\c`: the text scanner stops at once, the escape rule takes both characters
+            obtain ⟨ps, hps, hd, hk⟩ := ih t (by simpa using hs) hnt f (by simpa using hf)
+            refine ⟨.special [c] ['\\', c] :: ps, ?_, by simp [display, Piece.display] at hd ⊢; exact hd, ?_⟩
+            · have hesc : escapeAllPunct (c :: t) = '\\' :: c :: escapeAllPunct t := by
+                simp [escapeAllPunct, hp]
+              have ht : textRule ('\\' :: c :: escapeAllPunct t) = .ok none := by
+                simp [textRule_eq, splitRun, nonStop_backslash]
+              have he : escapeRuleR ('\\' :: c :: escapeAllPunct t) =
+                  .ok (some (2, [.special [c] ['\\', c]])) := by
+                simp [escapeRuleR, escapeCore_escapable c _ ((escapable_is_ascii_punct c).2 hp)]
+              have hps' : inlineLoop (textRule :: escapeRuleR :: rest) f (escapeAllPunct t) = .ok ps := by
+                simpa using hps
+              rw [hesc]
+              simp [inlineLoop, firstRule, ht, he, hps']
+            · intro p hp'
+              simp at hp'
+              rcases hp' with rfl | hp'
+              · exact Or.inr ⟨c, rfl⟩
+              · exact hk p hp'
+          · -- a punctuation-free run `a`, read by the text scanner in one go
+            have hp' : isAsciiPunct c = false := by simpa using hp
+            have hsound := splitRun_sound notPunct (c :: t)
+            have hsplit := splitRun_escaped (c :: t) hn
+            generalize ha : (splitRun notPunct (c :: t)).1 = a at hsound hsplit
+            generalize hs' : (splitRun notPunct (c :: t)).2 = s' at hsound hsplit
+            have hane : a ≠ [] := by
+              intro he
+              rw [← ha] at he
+              simp [splitRun, notPunct, hp'] at he
+            have hlen : (c :: t).length = a.length + s'.length := by
+              rw [hsound.2.1]; simp
+            have hapos : 0 < a.length := List.length_pos_iff.2 hane
+            have hns' : '\n' ∉ s' := fun h => hn (by rw [hsound.2.1]; simp [h])
+            obtain ⟨ps, hps, hd, hk⟩ := ih s' (by simp at hs hlen; omega) hns' f (by simp at hf hlen; omega)
+            refine ⟨.text a :: ps, ?_, ?_, ?_⟩
+            · have hesc : escapeAllPunct (c :: t) = a ++ escapeAllPunct s' := by
+                rw [hsound.2.1]; exact escapeAllPunct_append_notPunct a s' hsound.1
+              have ht : textRule (escapeAllPunct (c :: t)) = .ok (some (a.length, [.text a])) := by
+                rw [textRule_eq, hsplit]
+                have : (a.length == 0) = false := by simp; omega
+                simp [this]
+              have hne : ∃ x y, escapeAllPunct (c :: t) = x :: y := by
+                simp [escapeAllPunct, hp']
+              obtain ⟨x, y, hxy⟩ := hne
+              have hdrop : (x :: y).drop a.length = escapeAllPunct s' := by
+                rw [← hxy, hesc]; simp
+              have hps' : inlineLoop (textRule :: escapeRuleR :: rest) f (escapeAllPunct s') = .ok ps := by
+                simpa using hps
+              rw [hxy] at ht ⊢
+              simp only [inlineLoop, List.cons_append, List.nil_append, firstRule, ht, hdrop, hps']
+            · simp [display, Piece.display] at hd ⊢
+              rw [hd]; exact hsound.2.1.symm
+            · intro p hp''
+              simp at hp''
+              rcases hp'' with rfl | hp''
+              · exact Or.inl ⟨a, rfl⟩
+              · exact hk p hp''
+  exact key s.length s (Nat.le_refl _) hn
+
+/-- the concrete chain `[text, escape, entity]` on the escaped string -/
+theorem escape_roundtrip_TE (lookup : List Char → Option (List Char)) (s : List Char) (hn : '\n' ∉ s) :
+    ∃ ps, tokenizeTEE lookup (escapeAllPunct s) = .ok ps ∧ display ps = s := by
+  have hlen : s.length ≤ (escapeAllPunct s).length + 1 := by
+    have : ∀ l : List Char, l.length ≤ (escapeAllPunct l).length := by
+      intro l
+      induction l with
+      | nil => simp [escapeAllPunct]
+      | cons c t ih => simp only [escapeAllPunct]; split <;> simp <;> omega
+    have := this s; omega
+  obtain ⟨ps, h1, h2, _⟩ := escape_roundtrip [entityRuleR lookup] s hn _ hlen
+  exact ⟨ps, h1, h2⟩
 end MdIt.Entity
